@@ -1,4 +1,5 @@
 import PPProofs.Lemmas.PRHeapDeep
+import PPProofs.Lemmas.PRHeapDeepMemo
 /-!
 # C11 — `ParseResults.deepcopy()` of NESTED groups, at every depth (heap model)
 
@@ -24,9 +25,10 @@ What is proved, for ALL heaps / objects / depths / mutation sequences:
 * `deepcopy_named_alias_any_depth` — for every depth a concrete heap (`chainHeap`) where that happens.
 
 Not modelled here: container tokens (results.py:598-605: a `MutableMapping`/`Iterable` token is rebuilt, groups in it
-deep-copied) — `HVal` has scalars and references only; `copy.deepcopy`/pickle of nested groups (the standard
-library's memoised graph copy through `__reduce_ex__`/`__getstate__`/`__setstate__`): no `copyModule_deep_fresh`
-theorem, that clause stays with the oracle of harness/props/c11.py.
+deep-copied) — `HVal` has scalars and references only.  For `copy.deepcopy`/pickle (section (5) below) separation
+and frames are proved (`copyModule_deep_fresh`, `copyModule_deep_frame`); that the memoised copy SHOWS the
+original's views at every depth is not proved on the heap model (value level, one object: `PP.PR.pickle_roundtrip`;
+nested: the `copy-preserves` oracle of harness/props/c11.py).
 -/
 namespace PP.PRHeap
 
@@ -202,6 +204,128 @@ theorem deepcopy_named_alias_any_depth (d : Nat) :
       e.lists 0 (by show 0 < 3 * (d + 1) + 4; omega)
     simp only [view, mutate, e2, upd_same, e0]
     rfl
+
+/-! ### (5) `copy.deepcopy(r)` / pickle round trip of nested results: full separation, names included
+
+Model: `deepObjN` / `copyModuleDeep` in `PPModel/Mod/PRHeapDeep.lean` (the memoised graph copy the standard library
+performs through `__getnewargs__` / `__getstate__` / `__setstate__`, results.py:758-775).  Hypothesis `FD h.next h f o`:
+everything reachable from `o` through tokens and names is allocated and the reachability tree has depth < `f`. -/
+
+/-- reachability through tokens AND through named values -/
+inductive FReach (h : Heap α) : Nat → Nat → Prop where
+  | refl (o : Nat) : FReach h o o
+  | tok {o n x : Nat} : HVal.ref n ∈ h.lists (h.objs o).lst → FReach h n x → FReach h o x
+  | name {o n x : Nat} (e : String × Nat) (vp : HVal α × Int) : e ∈ h.dicts (h.objs o).dct → vp ∈ h.occs e.2 →
+      vp.1 = HVal.ref n → FReach h n x → FReach h o x
+
+theorem Inv.reach {b : Nat} {s : DS α} (hI : Inv b s) {c x : Nat} (hr : FReach s.h c x) :
+    InVals s.mo c → InVals s.mo x := by
+  induction hr with
+  | refl o => exact fun hc => hc
+  | tok hm _ ih => exact fun hc => ih ((hI.obj _ hc).2.2.2.1 _ hm _ rfl)
+  | name e vp he hvp hn _ ih =>
+    exact fun hc => ih ((hI.occ _ ((hI.obj _ hc).2.2.2.2 e he)).2 vp hvp _ hn)
+
+theorem FD.reach {b : Nat} {h : Heap α} {o x : Nat} (hr : FReach h o x) :
+    ∀ d, FD b h d o → x < b ∧ (h.objs x).lst < b ∧ (h.objs x).dct < b := by
+  induction hr with
+  | refl o => intro d hd; cases d with
+    | zero => exact hd.elim
+    | succ d => exact ⟨hd.1, hd.2.1, hd.2.2.1⟩
+  | tok hm _ ih => intro d hd; cases d with
+    | zero => exact hd.elim
+    | succ d => exact ih d (hd.2.2.2.1 _ hm)
+  | name e vp he hvp hn _ ih => intro d hd; cases d with
+    | zero => exact hd.elim
+    | succ d => exact ih d ((hd.2.2.2.2 e he).2 vp hvp _ hn)
+
+/-- **(5) `copy.deepcopy` / pickle of nested results rebuilds every reachable object**: no allocated cell or object
+    of the original heap is written; every object reachable from the copy by ANY route (tokens, named values, at any
+    depth) is a new object with a new list cell, a new dict cell and new occurrence lists; everything reachable
+    from the original is old — so the two object graphs are disjoint. -/
+theorem copyModule_deep_fresh (f : Nat) (h : Heap α) (o : Nat) (hd : FD h.next h f o) :
+    (h.next ≤ (copyModuleDeep f h o).1.next ∧ ∀ i, i < h.next →
+        (copyModuleDeep f h o).1.lists i = h.lists i ∧ (copyModuleDeep f h o).1.dicts i = h.dicts i ∧
+        (copyModuleDeep f h o).1.occs i = h.occs i ∧ (copyModuleDeep f h o).1.objs i = h.objs i) ∧
+    (∀ x, FReach (copyModuleDeep f h o).1 (copyModuleDeep f h o).2 x →
+        h.next ≤ x ∧ h.next ≤ ((copyModuleDeep f h o).1.objs x).lst ∧
+        h.next ≤ ((copyModuleDeep f h o).1.objs x).dct ∧
+        (∀ e ∈ (copyModuleDeep f h o).1.dicts ((copyModuleDeep f h o).1.objs x).dct,
+            h.next ≤ e.2 ∧ e.2 < (copyModuleDeep f h o).1.next) ∧
+        ¬ FReach h o x) ∧
+    (∀ y, FReach h o y → y < h.next ∧ (h.objs y).lst < h.next ∧ (h.objs y).dct < h.next) := by
+  have hI0 : Inv h.next (⟨h, [], []⟩ : DS α) :=
+    ⟨fun c hc => (by obtain ⟨_, hk⟩ := hc; cases hk), fun c hc => (by obtain ⟨_, hk⟩ := hc; cases hk)⟩
+  have hB0 : Below h.next h (⟨h, [], []⟩ : DS α).h := ⟨Nat.le_refl _, fun _ _ => ⟨rfl, rfl, rfl, rfl⟩⟩
+  obtain ⟨r1, r2, r3⟩ := deepObjN_spec h.next h f ⟨h, [], []⟩ o hI0 hB0 hd
+  refine ⟨⟨r2.next, fun i hi => ⟨r2.lists i hi, r2.dicts i hi, r2.occs i hi, r2.objs i hi⟩⟩, fun x hx => ?_,
+    fun y hy => FD.reach hy f hd⟩
+  have hxm := r1.reach hx r3
+  obtain ⟨⟨a1, _⟩, ⟨b1, _⟩, ⟨c1, _⟩, _, q2⟩ := r1.obj x hxm
+  refine ⟨a1, b1, c1, fun e he => (r1.occ _ (q2 e he)).1, fun ho => ?_⟩
+  have := (FD.reach ho f hd).1
+  omega
+
+/-- **(5′) frames, names included**: after `c = copy.deepcopy(r)` (or a pickle round trip), any sequence of own
+    mutations — tokens or names — of any object reachable from `c` by any route leaves the view (tokens, names,
+    list-all names) of every well-formed object of the original heap unchanged; and any sequence of own mutations
+    of any well-formed original object leaves the view of every object reachable from `c` unchanged. -/
+theorem copyModule_deep_frame (f : Nat) (h : Heap α) (o : Nat) (hd : FD h.next h f o) (x y : Nat)
+    (hx : FReach (copyModuleDeep f h o).1 (copyModuleDeep f h o).2 x) (hy : WF h y) (ms : List (Mut α)) :
+    view (mutateAll (copyModuleDeep f h o).1 x ms) y = view h y ∧
+    view (mutateAll (copyModuleDeep f h o).1 y ms) x = view (copyModuleDeep f h o).1 x := by
+  obtain ⟨⟨hn, hlow⟩, hfr, _⟩ := copyModule_deep_fresh f h o hd
+  obtain ⟨a1, b1, c1, q, _⟩ := hfr x hx
+  obtain ⟨wl, wd, wo, wa⟩ := hy
+  have eo := (hlow y wo).2.2.2
+  have el := (hlow _ wl).1
+  have ed := (hlow _ wd).2.1
+  have v0 : view (copyModuleDeep f h o).1 y = view h y := by
+    simp only [view, eo, el, ed]
+    congr 2
+    apply List.map_congr_left
+    intro e he
+    rw [(hlow e.2 (wa e he)).2.2.1]
+  have s1 : Sep (copyModuleDeep f h o).1 x y := by
+    refine ⟨?_, ?_, ?_⟩
+    · rw [eo]; omega
+    · rw [eo]; omega
+    · rw [eo, ed]; intro e he; have := wa e he; omega
+  have s2 : Sep (copyModuleDeep f h o).1 y x := by
+    refine ⟨?_, ?_, ?_⟩
+    · rw [eo]; omega
+    · rw [eo]; omega
+    · intro e he; exact (q e he).2
+  exact ⟨by rw [frame_all ms _ _ _ s1, v0], frame_all ms _ _ _ s2⟩
+
+/-- non-vacuity of (5): the outer result of `C11Heap.exHeap` (`[<inner>, 'b']`, `g ↦ <inner>`, `x ↦ 'b'`) -/
+example : FD exHeap.next exHeap 2 5 := by
+  refine ⟨by decide, by decide, by decide, ?_, ?_⟩
+  · intro n hn
+    have : n = 2 := by simpa [exHeap] using hn
+    subst this
+    exact ⟨by decide, by decide, by decide, fun n hn => by simp [exHeap] at hn, fun e he => by simp [exHeap] at he⟩
+  · intro e he
+    have : e = ("g", 6) ∨ e = ("x", 7) := by simpa [exHeap] using he
+    rcases this with rfl | rfl
+    · refine ⟨by decide, fun vp hvp n hn => ?_⟩
+      have : vp = (.ref 2, 0) := by simpa [exHeap] using hvp
+      subst this
+      cases hn
+      exact ⟨by decide, by decide, by decide, fun n hn => by simp [exHeap] at hn, fun e he => by simp [exHeap] at he⟩
+    · refine ⟨by decide, fun vp hvp n hn => ?_⟩
+      have : vp = (.atom "b", 1) := by simpa [exHeap] using hvp
+      subst this
+      cases hn
+
+/-- … its deep copy is object 15 = `[<object 10>, 'b']` with `g ↦ <object 10>` (the memo keeps `c['g'] is c[0]`),
+    `x ↦ 'b'`; object 10 = `['a']` -/
+example :
+    (copyModuleDeep 2 exHeap 5).2 = 15 ∧
+    view (copyModuleDeep 2 exHeap 5).1 15 = ([.ref 10, .atom "b"], [("g", [.ref 10]), ("x", [.atom "b"])], []) ∧
+    (view (copyModuleDeep 2 exHeap 5).1 10).1 = [.atom "a"] ∧
+    -- `c['g'].append('z')` is seen through `c[0]`, not by the original
+    (view (mutate (copyModuleDeep 2 exHeap 5).1 10 (.append (.atom "z"))) 2).1 = [.atom "a"] := by decide +kernel
 
 /-! ### non-vacuity: concrete nested instances, computed -/
 
